@@ -279,9 +279,8 @@ impl<F: Write + Seek> Directory<F> {
         if obj_type == ObjType::Storage {
             ts = Timestamp::now();
         }
-        *self.dir_entry_mut(stream_id) = DirEntry::new(name, obj_type, ts);
 
-        // Insert the new entry into the tree.
+        // Find the place for the new entry in the tree.
         let mut sibling_id = self.dir_entry(parent_id).child;
         let mut prev_sibling_id = parent_id;
         let mut ordering = Ordering::Equal;
@@ -295,30 +294,42 @@ impl<F: Write + Seek> Directory<F> {
                 Ordering::Equal => panic!("internal error: insert duplicate"),
             };
         }
+        debug_assert!(
+            ordering != Ordering::Equal || prev_sibling_id == parent_id
+        );
+
+        // Write the new entry to the underlying file before anything refers
+        // to it, and only then link it into the tree.  If either write fails,
+        // forget the entry again, so that the in-memory directory never gets
+        // ahead of the file (a retry would otherwise find the entry and
+        // succeed without ever writing it).
+        *self.dir_entry_mut(stream_id) = DirEntry::new(name, obj_type, ts);
+        let link_offset = match ordering {
+            Ordering::Less => 68,
+            Ordering::Greater => 72,
+            Ordering::Equal => 76,
+        };
+        let result = self.write_dir_entry(stream_id).and_then(|()| {
+            let mut sector =
+                self.seek_within_dir_entry(prev_sibling_id, link_offset)?;
+            sector.write_le_u32(stream_id)
+        });
+        if let Err(err) = result {
+            *self.dir_entry_mut(stream_id) = DirEntry::unallocated();
+            return Err(err);
+        }
         match ordering {
             Ordering::Less => {
                 self.dir_entry_mut(prev_sibling_id).left_sibling = stream_id;
-                let mut sector =
-                    self.seek_within_dir_entry(prev_sibling_id, 68)?;
-                sector.write_le_u32(stream_id)?;
             }
             Ordering::Greater => {
                 self.dir_entry_mut(prev_sibling_id).right_sibling = stream_id;
-                let mut sector =
-                    self.seek_within_dir_entry(prev_sibling_id, 72)?;
-                sector.write_le_u32(stream_id)?;
             }
             Ordering::Equal => {
-                debug_assert_eq!(prev_sibling_id, parent_id);
                 self.dir_entry_mut(parent_id).child = stream_id;
-                let mut sector = self.seek_within_dir_entry(parent_id, 76)?;
-                sector.write_le_u32(stream_id)?;
             }
         }
         // TODO: rebalance tree
-
-        // Write new entry to underyling file.
-        self.write_dir_entry(stream_id)?;
         Ok(stream_id)
     }
 
